@@ -3855,7 +3855,11 @@ class Intent_Spec(STRINGBase):  # R517
 
     @staticmethod
     def match(string):
-        return STRINGBase.match(pattern.abs_intent_spec, string)
+        result = STRINGBase.match(pattern.abs_intent_spec, string)
+        if result:
+            # 'IN OUT' may be written with any number of blanks.
+            result = (" ".join(result[0].split()),)
+        return result
 
 
 class Access_Stmt(StmtBase, WORDClsBase):  # R518
